@@ -141,14 +141,61 @@ theorem select_span {len f : Nat} {ts rest : List Token} {s : Select} (hT : Toke
     (h : parseSelect f ts = .ok (s, rest)) :
     ∃ run tail, ts = run ++ tail ++ rest ∧ Over s.select (endSelect s) run ∧
       (tail = [] ∨ ∃ tc, tail = [tc] ∧ s.trailing = true ∧ s.from_ = none ∧ s.where_ = none ∧ s.groupBy = none ∧
-        s.having = none) := parseSelect_over hT h
+        s.having = none) ∧
+      ∃ base pf pw pg ph, run ++ tail = base ++ pf ++ pw ++ pg ++ ph ∧ base ≠ [] ∧ OptOver s.from_ (·.from_) endFrom pf ∧
+        OptOver s.where_ (·.where_) endWhere pw ∧ OptOver s.groupBy (·.group) endGroupBy pg ∧
+        OptOver s.having (·.having) endHaving ph := parseSelect_over hT h
+
+/-- the clause nodes of a Select on lexer output: each present clause is token-aligned with `Pos() < End() ≤ len(input)`,
+and FROM / WHERE / GROUP BY / HAVING stand in source order without overlap -/
+theorem query_clause_positions {buf : Bytes} {ts rest : List Token} {f : Nat} {s : Select}
+    (hl : Lex.lexAll buf = .ok ts) (h : parseSelect f ts = .ok (s, rest)) (hr : rest ≠ []) :
+    (∀ x, s.from_ = some x → (∃ t ∈ ts, t.pos = x.from_) ∧ (∃ t ∈ ts, t.end = endFrom x) ∧ x.from_ < endFrom x ∧
+      endFrom x ≤ buf.length) ∧
+    (∀ x, s.where_ = some x → (∃ t ∈ ts, t.pos = x.where_) ∧ (∃ t ∈ ts, t.end = endWhere x) ∧ x.where_ < endWhere x ∧
+      endWhere x ≤ buf.length) ∧
+    (∀ x, s.groupBy = some x → (∃ t ∈ ts, t.pos = x.group) ∧ (∃ t ∈ ts, t.end = endGroupBy x) ∧ x.group < endGroupBy x ∧
+      endGroupBy x ≤ buf.length) ∧
+    (∀ x, s.having = some x → (∃ t ∈ ts, t.pos = x.having) ∧ (∃ t ∈ ts, t.end = endHaving x) ∧ x.having < endHaving x ∧
+      endHaving x ≤ buf.length) ∧
+    (∀ x y, s.from_ = some x → s.where_ = some y → endFrom x ≤ y.where_) ∧
+    (∀ x y, s.from_ = some x → s.groupBy = some y → endFrom x ≤ y.group) ∧
+    (∀ x y, s.from_ = some x → s.having = some y → endFrom x ≤ y.having) ∧
+    (∀ x y, s.where_ = some x → s.groupBy = some y → endWhere x ≤ y.group) ∧
+    (∀ x y, s.where_ = some x → s.having = some y → endWhere x ≤ y.having) ∧
+    (∀ x y, s.groupBy = some x → s.having = some y → endGroupBy x ≤ y.having) := by
+  have hT : TokensOK buf.length ts := ⟨(lexAll_lexed hl).tok, Lex.lexAll_len hl⟩
+  obtain ⟨run, tail, hts, _, _, base, pf, pw, pg, ph, hdec, _, hof, how, hog, hoh⟩ := parseSelect_over hT h
+  have hall : ts = base ++ pf ++ pw ++ pg ++ ph ++ rest := by rw [hts, hdec]
+  refine ⟨?_, ?_, ?_, ?_, ?_, ?_, ?_, ?_, ?_, ?_⟩
+  · intro x hx; rw [hx] at hof
+    exact over_facts hl (l := base) (run := pf) (r := pw ++ pg ++ ph ++ rest) (by rw [hall]; simp) (by simp [hr]) hof
+  · intro x hx; rw [hx] at how
+    exact over_facts hl (l := base ++ pf) (run := pw) (r := pg ++ ph ++ rest) (by rw [hall]; simp) (by simp [hr]) how
+  · intro x hx; rw [hx] at hog
+    exact over_facts hl (l := base ++ pf ++ pw) (run := pg) (r := ph ++ rest) (by rw [hall]; simp) (by simp [hr]) hog
+  · intro x hx; rw [hx] at hoh
+    exact over_facts hl (l := base ++ pf ++ pw ++ pg) (run := ph) (r := rest) (by rw [hall]) hr hoh
+  · intro x y hx hy; rw [hx] at hof; rw [hy] at how
+    exact over_ordered hl (l := base) (c1 := pf) (m := []) (c2 := pw) (r := pg ++ ph ++ rest) (by rw [hall]; simp) hof how
+  · intro x y hx hy; rw [hx] at hof; rw [hy] at hog
+    exact over_ordered hl (l := base) (c1 := pf) (m := pw) (c2 := pg) (r := ph ++ rest) (by rw [hall]; simp) hof hog
+  · intro x y hx hy; rw [hx] at hof; rw [hy] at hoh
+    exact over_ordered hl (l := base) (c1 := pf) (m := pw ++ pg) (c2 := ph) (r := rest) (by rw [hall]; simp) hof hoh
+  · intro x y hx hy; rw [hx] at how; rw [hy] at hog
+    exact over_ordered hl (l := base ++ pf) (c1 := pw) (m := []) (c2 := pg) (r := ph ++ rest) (by rw [hall]; simp) how hog
+  · intro x y hx hy; rw [hx] at how; rw [hy] at hoh
+    exact over_ordered hl (l := base ++ pf) (c1 := pw) (m := pg) (c2 := ph) (r := rest) (by rw [hall]) how hoh
+  · intro x y hx hy; rw [hx] at hog; rw [hy] at hoh
+    exact over_ordered hl (l := base ++ pf ++ pw) (c1 := pg) (m := []) (c2 := ph) (r := rest) (by rw [hall]; simp) hog hoh
 
 /-- QueryStatement = its QueryExpr (Select, or Query with ORDER BY / LIMIT): over `run`; the Select's run starts it -/
 theorem statement_span {len f : Nat} {ts rest : List Token} {q : QueryStatement} (hT : TokensOK len ts)
     (h : parseQueryStatement f ts = .ok (q, rest)) :
     ∃ run tail, ts = run ++ tail ++ rest ∧ Over (posQ q) (endQ q) run ∧ (tail = [] ∨ ∃ tc, tail = [tc]) ∧
       ∃ srun stail, Over (selectOf q.query).select (endSelect (selectOf q.query)) srun ∧
-        (∃ b, run ++ tail = srun ++ stail ++ b) := parseQueryStatement_over hT h
+        (∃ b, run ++ tail = srun ++ stail ++ b) ∧
+        (endQ q = endSelect (selectOf q.query) ∨ ∃ b', run = srun ++ b') := parseQueryStatement_over hT h
 
 /-- **assembly, PARTIAL**: for lexer output, the statement node (QueryStatement = Query / Select): token-aligned,
 `Pos() < End() ≤ len(input)`, and `Pos()` is the first token.  PARTIAL: (i) the hypothesis `rest ≠ []` (the `<eof>` token
@@ -175,13 +222,13 @@ theorem eof_not_consumed {buf : Bytes} {ts rest : List Token} {f : Nat} {q : Que
 
 /-- **C05 for the statement node, no side hypothesis**: for lexer output and the tree returned by ParseQuery, the
 QueryStatement (= its Query / Select) is token-aligned, `Pos() < End() ≤ len(input)`, starts at the first token, and its
-Select node is token-aligned with the same `Pos()` and `Pos() < End()` -/
+Select node is token-aligned with the same `Pos()`, `Pos() < End()`, and lies inside the statement's range -/
 theorem query_positions {buf : Bytes} {ts : List Token} {fuel : Nat} {q : QueryStatement}
     (hl : Lex.lexAll buf = .ok ts) (h : parseQueryTop fuel ts = .ok q) :
     (∃ t ∈ ts, t.pos = posQ q) ∧ (∃ t ∈ ts, t.end = endQ q) ∧ posQ q < endQ q ∧ endQ q ≤ buf.length ∧
       posQ q = (hd ts).pos ∧
       (∃ t ∈ ts, t.end = endSelect (selectOf q.query)) ∧ (selectOf q.query).select = posQ q ∧
-      (selectOf q.query).select < endSelect (selectOf q.query) := by
+      (selectOf q.query).select < endSelect (selectOf q.query) ∧ endSelect (selectOf q.query) ≤ endQ q := by
   unfold parseQueryTop at h
   obtain ⟨⟨q1, rest⟩, hp, hk⟩ := Res.bind_eq_ok.1 h
   have hq : q1 = q := by
@@ -193,13 +240,18 @@ theorem query_positions {buf : Bytes} {ts : List Token} {fuel : Nat} {q : QueryS
   have hr := rest_ne_nil hl hp
   obtain ⟨a, b, c, d, e⟩ := query_positions_partial hl hp hr
   have hT : TokensOK buf.length ts := ⟨(lexAll_lexed hl).tok, Lex.lexAll_len hl⟩
-  obtain ⟨run, tail, hts, ho, _, srun, stail, hos, bb, hb⟩ := parseQueryStatement_over hT hp
+  obtain ⟨run, tail, hts, ho, _, srun, stail, hos, ⟨bb, hb⟩, hnest⟩ := parseQueryStatement_over hT hp
   have hts2 : ts = [] ++ srun ++ (stail ++ bb ++ rest) := by rw [hts, hb]; simp
   obtain ⟨_, s2, s3, _⟩ := over_facts hl hts2 (by simp [hr]) hos
   have hsel : (selectOf q1.query).select = posQ q1 := by
     obtain ⟨q0⟩ := q1
     cases q0 <;> rfl
-  exact ⟨a, b, c, d, e, s2, hsel, s3⟩
+  refine ⟨a, b, c, d, e, s2, hsel, s3, ?_⟩
+  rcases hnest with h1 | ⟨b', hb'⟩
+  · rw [h1]; exact Nat.le_refl _
+  · have hts3 : ts = [] ++ ([] ++ srun ++ b') ++ (tail ++ rest) := by rw [hts, hb']; simp
+    have ho' : Over (posQ q1) (endQ q1) ([] ++ srun ++ b') := by simpa [← hb'] using ho
+    exact (over_nested hl hts3 (by simp [hr]) ho' hos).2
 
 /-- lexer output satisfies the token facts -/
 theorem lexed_tokensOK {buf : Bytes} {ts : List Token} (hl : Lex.lexAll buf = .ok ts) : TokensOK buf.length ts :=
